@@ -22,7 +22,8 @@ from simfile.dir import DuplicateSimfileError, SimfileDirectory, SimfilePack  # 
 LEVEL = "model_checking"
 
 # "song.sm" / "Song.SSC": simfiles named like the directory they are in (the enumerated song directory is called "song")
-NAMES = ["a.sm", "b.SM", "c.Ssc", "d.ssc", ".sm", "x.sm.old", "y.ssca", "sm", "bn.png", "song.ogg", "e.ßc", "f.ſm", "data_sm", "x-ssc", "song.sm", "Song.SSC"]
+# "._a.sm", "~b.ssc", "#c.sm#": names that operating systems and editors give to side files - simfiles all the same
+NAMES = ["a.sm", "b.SM", "c.Ssc", "d.ssc", ".sm", "x.sm.old", "y.ssca", "sm", "bn.png", "song.ogg", "e.ßc", "f.ſm", "data_sm", "x-ssc", "song.sm", "Song.SSC", "._a.sm", "~b.ssc"]
 JP = "日本語タイトル"
 
 
@@ -411,6 +412,10 @@ def check_reuse(world, tree_name, history, as_pack):
 def check_case(case):
     world = World()
     try:
+        if case["kind"] == "oddnames":
+            acc = core.Acc()
+            explore_shard(acc, ("oddnames",))
+            return [{"clause": v["clause"], "expected": v.get("expected"), "observed": v.get("observed")} for v in acc.violations if v["case"].get("name") == case["name"]]
         if case["kind"] == "reuse":
             return check_reuse(world, case["tree"], case["history"], case["as_pack"])
         if case["kind"] == "songdir":
@@ -430,6 +435,59 @@ def explore_shard(acc, shard):
     kind = shard[0]
     world = World()
     try:
+        if kind == "oddnames":
+            # directories whose names mean something to a shell, to os.path or to a formatter: taken literally
+            layer = "directories with odd names"
+            case = None
+            for dname in ("~", "~root", "$HOME", "%d", "{0}", "a b", "-x", "\u00fc", "e\u0301", "song.sm", "x.ssc"):
+                tree = {"a.sm": content_for("a.sm")}
+                paths = world.make({"Pack": {dname: tree, "other": {"o.ssc": content_for("o.ssc")}}})
+                for fsname, fsobj, base in (("mem", world.mem, paths[0]), ("nat", world.nat, paths[1])):
+                    fsobj.order = 0
+                    tag = {"fs": fsname}
+                    case = {"kind": "oddnames", "name": dname}
+                    core.guard_cheap(acc, case)
+                    pdir = join(fsname, base, "Pack")
+                    sdir = join(fsname, pdir, dname)
+                    want_sm = norm(fsname, join(fsname, sdir, "a.sm"))
+                    want = ("ok", (want_sm, ("SMSimfile", "a.sm")))
+                    got = outcome(lambda: (lambda d_: (norm(fsname, d_.sm_path), title_of(d_.open())))(SimfileDirectory(sdir, filesystem=fsobj)))
+                    od = outcome(lambda: (lambda r: (norm(fsname, r[1]), title_of(r[0])))(simfile.opendir(sdir, filesystem=fsobj)))
+                    pk = outcome(lambda: sorted(norm(fsname, p_) for p_ in SimfilePack(pdir, filesystem=fsobj).simfile_dir_paths))
+                    want_pk = ("ok", sorted(norm(fsname, join(fsname, pdir, d)) for d in (dname, "other")))
+                    fails = []
+                    if got != want:
+                        fails.append({"clause": "a directory with an odd name is not read like any other", "expected": want, "observed": got, **tag})
+                    if od != want:
+                        fails.append({"clause": "opendir on a directory with an odd name differs from SimfileDirectory", "expected": want, "observed": od, **tag})
+                    if pk != want_pk:
+                        fails.append({"clause": "a pack does not list exactly its immediate sub-directories that directly contain a simfile", "expected": want_pk, "observed": pk, **tag})
+                    if fsname == "nat":
+                        # ... also when named relative to the current directory (a bare "~" must not become the home directory)
+                        cwd = os.getcwd()
+                        try:
+                            os.chdir(pdir)
+                            for rel in (dname, "./" + dname):
+                                if rel.startswith("-"):
+                                    pass
+                                rg = outcome(lambda: (lambda r: (os.path.normpath(os.path.abspath(r[1])), title_of(r[0])))(simfile.opendir(rel)))
+                                if rg != want:
+                                    fails.append({"clause": "opendir on a relative odd directory name differs", "expected": want, "observed": rg, "spelling": rel, **tag})
+                                rd = outcome(lambda: (lambda d_: (os.path.normpath(os.path.abspath(d_.sm_path)), title_of(d_.open())))(SimfileDirectory(rel)))
+                                if rd != want:
+                                    fails.append({"clause": "SimfileDirectory on a relative odd directory name differs", "expected": want, "observed": rd, "spelling": rel, **tag})
+                        finally:
+                            os.chdir(cwd)
+                    acc.count("states")
+                    acc.count("transitions")
+                    acc.count("evaluations", 5)
+                    acc.count("nontrivial")
+                    acc.outcome("directory with an odd name")
+                    for f in fails:
+                        acc.violation(f["clause"], case, f["expected"], f["observed"], signature=(f["clause"], "oddnames"))
+                world.drop(*paths)
+            acc.sample(layer, case)
+            return
         if kind == "bigdir":
             # a directory of hundreds of entries: the simfile is found wherever the listing puts it
             _, n_other = shard
@@ -578,6 +636,7 @@ def explore(run):
     shards.append(("pack", None, 0))
     for k in CHILD_KINDS:
         shards.append(("pack", k, pmax))
+    shards.append(("oddnames",))
     for n_other in (130, 300) + ((1100,) if run.thorough() else ()):
         shards.append(("bigdir", n_other))
     for t in reuse_trees():
@@ -601,6 +660,7 @@ def explore(run):
     core.require(acc.outcomes["duplicate simfiles, error"] > 0 and acc.outcomes["duplicate simfiles, ignored"] > 0, "no duplicates")
     core.require(acc.outcomes["directory without simfile"] > 0, "no empty directory")
     core.require(acc.outcomes["directory with hundreds of entries"] > 0, "no big directory")
+    core.require(acc.outcomes["directory with an odd name"] > 0, "no odd directory name")
     core.require(acc.outcomes["directory / pack object opened more than once"] > 0, "no reuse history")
     core.require(acc.outcomes["stray-text file opened with strict=False"] > 0, "strict option not exercised")
     core.require(acc.outcomes["explicit encoding passed down"] > 0, "encoding option not exercised")
